@@ -103,7 +103,18 @@ static Polygons readPolys(const std::vector<std::string>& t, size_t& i) {
   return ps;
 }
 
+static MeshGL64 soup(int kind, int p1, int p2);
+static MeshGL64 soupBig(int kind, int p1, int p2) {
+  // the same soup followed by 2^18 unused vertices: vertPos_.size() >= 1<<18 selects the bucket-sort
+  // branch of CreateHalfedges; the unused vertices must disappear (RemoveUnreferencedVerts)
+  MeshGL64 g = soup(kind, p1, p2);
+  const size_t extra = (1u << 18) + 7;
+  for (size_t i = 0; i < extra; ++i)
+    for (size_t c = 0; c < g.numProp; ++c) g.vertProperties.push_back(c == 0 ? 5.0 + 1e-5 * i : 0.0);
+  return g;
+}
 static MeshGL64 soup(int kind, int p1, int p2) {
+  if (kind >= 100) return soupBig(kind - 100, p1, p2);
   MeshGL64 g;
   g.numProp = 3;
   auto V = [&](double x, double y, double z) {
@@ -197,6 +208,56 @@ static MeshGL64 soup(int kind, int p1, int p2) {
       auto t2 = V(0.5 * p1, 0, 1), b2 = V(0.5 * p1, 0, -1);
       uint64_t q[4] = {V(1 + 0.5 * p1, 0, 0), V(0.5 * p1, 1, 0), V(-1 + 0.5 * p1, 0, 0), V(0.5 * p1, -1, 0)};
       for (int k = 0; k < 4; ++k) { T(t2, q[k], q[(k + 1) % 4]); T(b2, q[(k + 1) % 4], q[k]); }
+      break;
+    }
+    case 10:    // p1 = N (fan size), p2 = triangle order: two wedge solids sharing the edge A-B (A, B high valence)
+    case 12: {  // three wedges around the same edge
+      const int N = std::max(3, p1);
+      const int nW = kind == 10 ? 2 : 3;
+      const double half = kind == 10 ? 60.0 : 50.0;
+      auto A = V(0, 0, 0), B = V(0, 0, 1);
+      std::vector<std::vector<uint64_t>> ws;
+      for (int w = 0; w < nW; ++w) {
+        const double th0 = 360.0 * w / nW;
+        std::vector<uint64_t> r;
+        for (int i = 0; i < N; ++i) {
+          const double th = (th0 - half + 2 * half * i / (N - 1)) * M_PI / 180.0;
+          r.push_back(V(std::cos(th), std::sin(th), 0.5));
+        }
+        std::vector<uint64_t> t;
+        auto tr = [&](uint64_t a, uint64_t b, uint64_t c) { t.push_back(a); t.push_back(b); t.push_back(c); };
+        for (int i = 0; i + 1 < N; ++i) tr(A, r[i + 1], r[i]);
+        for (int i = 0; i + 1 < N; ++i) tr(B, r[i], r[i + 1]);
+        tr(A, B, r[N - 1]);
+        tr(B, A, r[0]);
+        ws.push_back(t);
+      }
+      std::vector<uint64_t> all;
+      for (auto& t : ws) all.insert(all.end(), t.begin(), t.end());
+      const size_t nT = all.size() / 3;
+      std::vector<size_t> ord(nT);
+      for (size_t i = 0; i < nT; ++i) ord[i] = i;
+      if (p2 % 4 == 1) { ord.insert(ord.begin(), nT - 1); ord.pop_back(); }           // last triangle first
+      else if (p2 % 4 == 2) { for (size_t i = 0; i < nT; ++i) ord[i] = (i % 2 ? nT - 1 - i / 2 : i / 2); }  // interleaved from both ends
+      else if (p2 % 4 == 3) { for (size_t i = 0; i < nT; ++i) ord[i] = nT - 1 - i; }  // reversed
+      for (size_t i : ord) T(all[3 * i], all[3 * i + 1], all[3 * i + 2]);
+      break;
+    }
+    case 11: {  // p2 (2..5) bipyramids sharing ONE apex vertex: a pinched vertex with p2 fans of p1 triangles
+      const int N = std::max(3, p1), m = std::max(2, std::min(5, p2));
+      auto A = V(0, 0, 0);
+      for (int j = 0; j < m; ++j) {
+        const double ph = 2 * M_PI * j / m;
+        const vec3 d(std::cos(ph), std::sin(ph), 0), u(-std::sin(ph), std::cos(ph), 0), w(0, 0, 1);
+        auto C = V(3 * d.x, 3 * d.y, 0);
+        std::vector<uint64_t> r;
+        for (int i = 0; i < N; ++i) {
+          const double t = 2 * M_PI * i / N;
+          const vec3 q = 1.5 * d + 0.5 * (std::cos(t) * u + std::sin(t) * w);
+          r.push_back(V(q.x, q.y, q.z));
+        }
+        for (int i = 0; i < N; ++i) { T(A, r[(i + 1) % N], r[i]); T(C, r[i], r[(i + 1) % N]); }
+      }
       break;
     }
     default: {
